@@ -692,3 +692,37 @@ func nrParseMetric(raw json.RawMessage, idx int, commonInterval bool, p *Payload
 		emit(match.sub.sub, tags, value)
 	}
 }
+
+// CanonNewRelic returns the Tags and Host that ParseNewRelic reports for a series flushed with these tags and this
+// source when the backend is faithful, as far as the attribute model allows: one value per key (the last tag of a key
+// wins), a bare tag "k" and "k:true" are the same thing (reported bare), the source travels as statsdSource unless
+// the series has a statsdSource: tag of its own (then that tag's value is reported as host). Tag values are NOT
+// normalised here although the backend sends numeric looking ones as numbers: "5" and "2.5" survive that, "1.0",
+// "1e3", "10_20", "+5", ".5", "007" come back as "1", "1000", "1020", "5", "0.5", "7" and show up as a difference.
+func CanonNewRelic(tags []string, source string) (ctags []string, host string) {
+	host = source
+	values := map[string]string{}
+	var order []string
+	for _, t := range tags {
+		k, v, found := strings.Cut(t, ":")
+		if !found {
+			v = "true"
+		}
+		if _, seen := values[k]; !seen {
+			order = append(order, k)
+		}
+		values[k] = v
+	}
+	for _, k := range order {
+		v := values[k]
+		switch {
+		case k == "statsdSource":
+			host = v
+		case v == "true":
+			ctags = append(ctags, k)
+		default:
+			ctags = append(ctags, k+":"+v)
+		}
+	}
+	return jsSorted(ctags), host
+}
